@@ -68,7 +68,9 @@ func (s *colSink) SetCReg(adj uint8, incr bool, c ivg.Color) {
 	s.incr = append(s.incr, incr)
 }
 
-func rgbaOf(u uint32) color.RGBA { return color.RGBA{uint8(u >> 24), uint8(u >> 16), uint8(u >> 8), uint8(u)} }
+func rgbaOf(u uint32) color.RGBA {
+	return color.RGBA{uint8(u >> 24), uint8(u >> 16), uint8(u >> 8), uint8(u)}
+}
 
 // c09Batch writes the colours with SetCReg, decodes and compares.
 func c09Batch(c *run.Ctx, cols []ivg.Color, what string) {
